@@ -74,6 +74,7 @@ func fetch(
 	fetcher := options.getFetcher(exchg)
 	cids := make([]cid.Cid, 0, len(blks))
 	duplicates := make(map[cid.Cid]Block)
+	originals := make(map[cid.Cid]*unmarshalEntry)
 	for _, blk := range blks {
 		cid := blk.CID() // memoize CID for reuse as it ain't free
 		cids = append(cids, cid)
@@ -81,7 +82,8 @@ func fetch(
 		// store the UnmarshalFn s.t. hasher can access it
 		// and fill in the Block
 		unmarshalFn := blk.UnmarshalFn(root)
-		_, exists := unmarshalFns.LoadOrStore(cid, &unmarshalEntry{UnmarshalFn: unmarshalFn})
+		entry := &unmarshalEntry{UnmarshalFn: unmarshalFn}
+		_, exists := unmarshalFns.LoadOrStore(cid, entry)
 		if exists {
 			// the unmarshalFn has already been stored for the cid
 			// means there is ongoing fetch happening for the same cid
@@ -89,6 +91,7 @@ func fetch(
 		} else {
 			// cleanup are by the original requester and
 			// only after we are sure we got the block
+			originals[cid] = entry
 			defer unmarshalFns.Delete(cid)
 		}
 	}
@@ -124,7 +127,22 @@ func fetch(
 			// towards simplicity has been made.
 			continue
 		}
-		// common case: the block was populated by the hasher
+		// common case: the block was populated by the hasher.
+		// However, the hasher may have looked up the entry of a previous Fetch of the same Block that was
+		// finishing while this Fetch registered its own entry, in which case the data was checked
+		// against that Fetch's Block and ours is still empty. So make sure our Block is populated.
+		if entry, ok := originals[bitswapBlk.Cid()]; ok {
+			entry.Lock()
+			var err error
+			if !entry.populated {
+				err = unmarshal(entry.UnmarshalFn, bitswapBlk.RawData())
+				entry.populated = err == nil
+			}
+			entry.Unlock()
+			if err != nil {
+				return fmt.Errorf("unmarshaling fetched block: %w", err)
+			}
+		}
 		// so store it if requested
 		err := options.store(ctx, bitswapBlk)
 		if err != nil {
@@ -172,6 +190,8 @@ var unmarshalFns sync.Map
 type unmarshalEntry struct {
 	sync.Mutex
 	UnmarshalFn
+	// populated is set once the UnmarshalFn has accepted data and populated its Block
+	populated bool
 }
 
 // hasher implements hash.Hash to be registered as custom multihash
@@ -235,6 +255,7 @@ func (h *hasher) write(data []byte) error {
 	if err != nil {
 		return fmt.Errorf("verifying and unmarshalling container data: %w", err)
 	}
+	entry.populated = true
 
 	// set the id as resulting sum
 	// it's required for the sum to match the requested ID
